@@ -383,6 +383,8 @@ pub fn theta_plus() -> Vec<Timing> {
         Timing::new(1.0, 0.0, Rep::Times(0), false),
         Timing::new(0.5, 0.25, Rep::Times(3), true),
         Timing::new(1.0, 0.0, Rep::Times(3), false),
+        // a single reversing cycle written as Times(0), delayed
+        Timing::new(1.0, 0.25, Rep::Times(0), true),
     ]);
     v
 }
